@@ -1,6 +1,6 @@
 (* Pinned statements of C10 (generated once by tools/mkpins.py from coq/props/C10.v, then committed). *)
 From DV Require Import Model.Base Model.NameCheck Model.Parser Model.Header Model.Readers Model.Uncompress
-  Model.Mutate Spec.PlainSpec Proofs.Hoare Proofs.HeaderBits Proofs.InsertLemmas Proofs.PlainWf Proofs.InsertFail Proofs.InsertSpec Proofs.HeaderInv props.C10.
+  Model.Mutate Spec.PlainSpec Proofs.Hoare Proofs.HeaderBits Proofs.InsertLemmas Proofs.PlainWf Proofs.InsertFail Proofs.InsertSpec Proofs.HeaderInv Spec.RecordSpec Proofs.WalkSkip Proofs.ReplaceInv Proofs.Totality props.C10.
 Check (C10_insert_bound : forall sec rr s s',
   m_insert_rr sec rr s = (s', Ok tt) -> (N.of_nat (length (pp_packet (fst s'))) <= 8192)%N).
 Print Assumptions C10_insert_bound.
@@ -24,3 +24,24 @@ Check (C10_failed_insert_keeps_invariant : forall p v it sec rr s' e, bytes_ok p
 Print Assumptions C10_failed_insert_keeps_invariant.
 Check (C10_failed_insert_changes_nothing : forall v it sec rr s' e, dinv v -> m_insert_rr sec rr (v, it) = (s', Err e) -> s' = (v, it)).
 Print Assumptions C10_failed_insert_changes_nothing.
+Check (C10_failed_set_name_changes_nothing : forall nm v it qls qt lA lN lR r x,
+  dinv v -> bytes_ok nm -> reading (pp_packet v) qls qt lA lN lR -> In (r, x) (lA ++ lN ++ lR) -> is_opt r = false ->
+  it_offset it = Some (rv_off r) -> it_name_end it = rv_name_end r -> it_offset_next it = rv_name_end r + 10 + rv_rdlen r ->
+  it_section it <> SQuestion ->
+  (exists s', m_set_raw_name nm (v, it) = (s', Ok tt)) \/ (exists e, m_set_raw_name nm (v, it) = ((v, it), Err e))).
+Print Assumptions C10_failed_set_name_changes_nothing.
+Check (C10_failed_set_ip_changes_nothing : forall v it ip qls qt lA lN lR r x,
+  dinv v -> reading (pp_packet v) qls qt lA lN lR -> In (r, x) (lA ++ lN ++ lR) ->
+  it_offset it = Some (rv_off r) -> it_name_end it = rv_name_end r ->
+  (exists s', m_set_ip ip (v, it) = (s', Ok tt)) \/ (exists e, m_set_ip ip (v, it) = ((v, it), Err e))).
+Print Assumptions C10_failed_set_ip_changes_nothing.
+Check (C10_delete_succeeds : forall v it qls qt lA lN lR r x,
+  dinv v -> reading (pp_packet v) qls qt lA lN lR -> In (r, x) (lA ++ lN ++ lR) -> is_opt r = false ->
+  it_offset it = Some (rv_off r) -> it_name_end it = rv_name_end r -> it_offset_next it = rv_name_end r + 10 + rv_rdlen r ->
+  exists s', m_delete (v, it) = (s', Ok tt)).
+Print Assumptions C10_delete_succeeds.
+Check (C10_set_ttl_succeeds : forall v it t qls qt lA lN lR r x,
+  dinv v -> reading (pp_packet v) qls qt lA lN lR -> In (r, x) (lA ++ lN ++ lR) ->
+  it_offset it <> None -> it_name_end it = rv_name_end r ->
+  exists s', m_set_ttl t (v, it) = (s', Ok tt)).
+Print Assumptions C10_set_ttl_succeeds.
